@@ -57,22 +57,35 @@ Proof.
   - apply PositiveMap.gro. intros H; apply Hne, nkey_inj, H.
 Qed.
 
-(* run_st against run_pure: if every fetch is answered as the environment says,
-   preserving an invariant P and a (reflexive, transitive) frame relation R *)
+(* run_st against run_pure.  `agrees r c`: whenever the cache-free semantics gives a
+   value, the state machine returns that value.  (When the cache-free semantics
+   panics nothing is claimed about the returned result: a Get that panics after the
+   `Set` of style.go:484 leaves a stale entry behind, which a later Get returns.) *)
+Definition agrees {A} (r c : res A) : Prop := forall a, c = Ok a -> r = Ok a.
+
+Lemma agrees_refl {A} (r : res A) : agrees r r.
+Proof. intros a H; exact H. Qed.
+
 Lemma run_st_ok {A} (h : styles -> dep -> styles * res value) (env : dep -> res value)
       (P : styles -> Prop) (R : styles -> styles -> Prop) :
   (forall st, R st st) -> (forall a b c, R a b -> R b c -> R a c) ->
-  (forall st d, P st -> snd (h st d) = env d /\ P (fst (h st d)) /\ R st (fst (h st d))) ->
+  (forall st d, P st -> agrees (snd (h st d)) (env d) /\ P (fst (h st d)) /\ R st (fst (h st d))) ->
   forall (pg : prog A) st, P st ->
-    snd (run_st h st pg) = run_pure env pg /\ P (fst (run_st h st pg)) /\ R st (fst (run_st h st pg)).
+    agrees (snd (run_st h st pg)) (run_pure env pg) /\ P (fst (run_st h st pg)) /\ R st (fst (run_st h st pg)).
 Proof.
   intros Rrefl Rtrans Hh pg. induction pg as [a|s|d k IH]; intros st HP; cbn.
-  - auto.
-  - auto.
+  - split; [apply agrees_refl|auto].
+  - split; [apply agrees_refl|auto].
   - specialize (Hh st d HP). destruct (h st d) as [st' r]. cbn in Hh.
-    destruct Hh as (Hr & HP' & HR). rewrite <- Hr.
-    destruct r as [v| |]; cbn; auto.
-    destruct (IH v st' HP') as (E1 & E2 & E3). repeat split; eauto.
+    destruct Hh as (Hr & HP' & HR).
+    destruct r as [v| |]; cbn.
+    + destruct (IH v st' HP') as (E1 & E2 & E3). split; [|split; eauto].
+      intros a Ha. destruct (env d) as [v0| |] eqn:Ed; try discriminate.
+      specialize (Hr v0 eq_refl). inversion Hr; subst. apply E1, Ha.
+    + split; [|auto]. intros a Ha. destruct (env d) as [v0| |] eqn:Ed; try discriminate.
+      specialize (Hr v0 eq_refl). discriminate.
+    + split; [|auto]. intros a Ha. destruct (env d) as [v0| |] eqn:Ed; try discriminate.
+      specialize (Hr v0 eq_refl). discriminate.
 Qed.
 
 (* ------------------------------------------------------------------ chains *)
@@ -130,9 +143,8 @@ Section Chains.
     chain_of t n = n :: match n_parent nd with Some j => chain_of t j | None => [] end.
   Proof.
     intros En. unfold chain_of. pose proof (node_at_lt n nd En) as Hlt.
-    destruct (List.length t) as [|f] eqn:El; [lia|]. cbn. rewrite En.
-    destruct (n_parent nd) as [j|] eqn:Ep; [|reflexivity].
-    f_equal. pose proof (parent_lt n nd j En Ep). apply chain_fuel_indep; lia.
+    rewrite (chain_fuel_indep n (List.length t) (S (List.length t))) by lia.
+    cbn [chain_fuel]. rewrite En. destruct (n_parent nd) as [j|] eqn:Ep; reflexivity.
   Qed.
 
   Lemma chain_of_le : forall n m, In m (chain_of t n) -> m <= n.
@@ -172,3 +184,798 @@ Section Chains.
     apply nth_error_None in E. pose proof (node_at_lt n nd En). lia.
   Qed.
 End Chains.
+
+(* ------------------------------------------------------------------ cache transparency *)
+
+Section Transparency.
+  Variable ar : arith.
+  Variable fx : bool.
+  Variable t : tree.
+  Hypothesis WF : wf_tree t = true.
+
+  Notation comp := (computed ar fx t).
+  Notation rfs0 := (root_fs_pure ar fx t).
+  Notation cchain := (computed_chain ar fx t rfs0).
+
+  (* cache-free values of the fields captured at construction *)
+  Definition cap_rootfs (n : N) : res value :=
+    match chain_of t n with _ :: _ :: _ => rfs0 | _ => initial_fs_value end.
+  Definition cap_spec (n q : N) : res value :=
+    match node_at t n, chain_of t n with
+    | Some nd, _ :: anc => specified fx nd (is_last anc) (cchain anc) q
+    | _, _ => Panic 8
+    end.
+
+  (* invariant of one style object: what is cached / captured is what the cache-free
+     semantics gives (whenever it gives a value) *)
+  Definition SInv (n : N) (s : sstyle) : Prop :=
+    (forall p v, PositiveMap.find (nkey p) (s_cache s) = Some v -> agrees (Ok v) (comp n p)) /\
+    (forall nd, node_at t n = Some nd -> n_kind nd = KElem ->
+       agrees (Ok (s_rootfs s)) (cap_rootfs n) /\ agrees (Ok (s_pos s)) (cap_spec n PPosition) /\
+       agrees (Ok (s_disp s)) (cap_spec n PDisplay) /\ agrees (Ok (s_float s)) (cap_spec n PFloat)) /\
+    (forall nd, node_at t n = Some nd -> n_kind nd = KAnon ->
+       forall p, In p anon_presets -> PositiveMap.find (nkey p) (s_cache s) = Some dim_zero_null).
+  Definition InvNode (st : styles) (n : N) : Prop := SInv n (style_of st n).
+
+  Definition frame (dom : N -> Prop) (a b : styles) : Prop :=
+    forall m, ~ dom m -> style_of b m = style_of a m.
+  Lemma frame_refl dom a : frame dom a a. Proof. intros m _. reflexivity. Qed.
+  Lemma frame_trans dom a b c : frame dom a b -> frame dom b c -> frame dom a c.
+  Proof. intros H1 H2 m Hm. rewrite (H2 m Hm). apply H1, Hm. Qed.
+
+  Definition getter_ok (g : getter) (pure : N -> res value) (dom : N -> Prop) : Prop :=
+    forall st q, (forall m, dom m -> InvNode st m) ->
+      agrees (snd (g st q)) (pure q) /\
+      (forall m, dom m -> InvNode (fst (g st q)) m) /\
+      frame dom st (fst (g st q)).
+
+  (* the parent-only handler *)
+  Lemma parent_handler_ok anc is_root parent_get parent_pure (keep : styles -> Prop) :
+    getter_ok parent_get parent_pure (fun m => In m anc) ->
+    (forall a b, frame (fun m => In m anc) a b -> keep a -> keep b) ->
+    forall st d, ((forall m, In m anc -> InvNode st m) /\ keep st) ->
+      agrees (snd (parent_handler is_root parent_get st d)) (parent_env is_root parent_pure d) /\
+      ((forall m, In m anc -> InvNode (fst (parent_handler is_root parent_get st d)) m) /\ keep (fst (parent_handler is_root parent_get st d))) /\
+      frame (fun m => In m anc) st (fst (parent_handler is_root parent_get st d)).
+  Proof.
+    intros Hg Hkeep st d [HI HK]. unfold parent_handler, parent_env.
+    assert (Triv : forall r, agrees (snd (st, r : res value)) r /\
+              ((forall m, In m anc -> InvNode (fst (st, r)) m) /\ keep (fst (st, r))) /\
+              frame (fun m => In m anc) st (fst (st, r))).
+    { intros r. cbn. split; [apply agrees_refl|]. split; [split; assumption|apply frame_refl]. }
+    destruct d; try apply Triv.
+    destruct is_root; [apply Triv|].
+    destruct (Hg st p HI) as (E1 & E2 & E3).
+    split; [exact E1|]. split; [split; [exact E2|]|exact E3].
+    eapply Hkeep; [exact E3|exact HK].
+  Qed.
+
+  Lemma SInv_change n nd s s' :
+    node_at t n = Some nd -> n_kind nd = KElem ->
+    SInv n s -> s_rootfs s' = s_rootfs s -> s_pos s' = s_pos s -> s_disp s' = s_disp s ->
+    s_float s' = s_float s ->
+    (forall q w, PositiveMap.find (nkey q) (s_cache s') = Some w ->
+                 PositiveMap.find (nkey q) (s_cache s) = Some w \/ agrees (Ok w) (comp n q)) ->
+    SInv n s'.
+  Proof.
+    intros En Ek (H1 & H2 & H3) E1 E2 E3 E4 Hc. split; [|split].
+    - intros q w Hq. destruct (Hc q w Hq) as [H|H]; [apply H1, H|exact H].
+    - intros nd' En' Ek'. rewrite E1, E2, E3, E4. exact (H2 nd' En' Ek').
+    - intros nd' En' Ek'. rewrite En in En'. inversion En'; subst. congruence.
+  Qed.
+
+  Lemma InvNode_same st st' m : style_of st' m = style_of st m -> InvNode st m -> InvNode st' m.
+  Proof. unfold InvNode. intros ->. auto. Qed.
+
+  Lemma elem_pure_inv nd isr pv ov rf p w :
+    elem_pure ar fx nd isr pv ov rf p = Ok w ->
+    exists v save v' del,
+      run_pure (parent_env isr pv) (cascade_value fx isr nd p) = Ok (v, save) /\
+      run_pure (parent_env isr pv) (special isr nd p v) = Ok (v', del) /\
+      if save && negb del then w = v
+      else run_pure (pure_env isr pv ov rf (specified fx nd isr pv PPosition)
+                       (specified fx nd isr pv PDisplay) (specified fx nd isr pv PFloat))
+                    (compute ar fx isr nd p v') = Ok w.
+  Proof.
+    unfold elem_pure. intros H.
+    destruct (run_pure (parent_env isr pv) (cascade_value fx isr nd p)) as [[v save]| |] eqn:E1; try discriminate.
+    cbn [bind] in H.
+    destruct (run_pure (parent_env isr pv) (special isr nd p v)) as [[v' del]| |] eqn:E3; try discriminate.
+    cbn [bind] in H. exists v, save, v', del. split; [reflexivity|]. split; [exact E3|].
+    destruct (save && negb del); [now inversion H|exact H].
+  Qed.
+
+  Section Elem.
+    Variables (n : N) (nd : node) (anc : list N) (parent_get own_get : getter) (own_pure : N -> res value).
+    Hypothesis En : node_at t n = Some nd.
+    Hypothesis Ek : n_kind nd = KElem.
+    Hypothesis Ec : chain_of t n = n :: anc.
+    Hypothesis Hni : ~ In n anc.
+    Hypothesis Hpar : getter_ok parent_get (cchain anc) (fun m => In m anc).
+    Hypothesis Hown : getter_ok own_get own_pure (fun m => m = n \/ In m anc).
+
+    Let dom := fun m => m = n \/ In m anc.
+    Let isr := is_last anc.
+
+    Lemma handler_ok st d :
+      (forall m, dom m -> InvNode st m) ->
+      agrees (snd (handler n isr parent_get own_get st d))
+        (pure_env isr (cchain anc) own_pure (cap_rootfs n) (cap_spec n PPosition) (cap_spec n PDisplay) (cap_spec n PFloat) d) /\
+      (forall m, dom m -> InvNode (fst (handler n isr parent_get own_get st d)) m) /\
+      frame dom st (fst (handler n isr parent_get own_get st d)).
+    Proof.
+      intros HI.
+      assert (Triv : forall r r', agrees r r' -> agrees (snd (st, r : res value)) r' /\
+                (forall m, dom m -> InvNode (fst (st, r)) m) /\ frame dom st (fst (st, r))).
+      { intros r r' Hr. cbn. split; [exact Hr|]. split; [assumption|apply frame_refl]. }
+      pose proof (proj1 (proj2 (HI n (or_introl eq_refl))) nd En Ek) as (C1 & C2 & C3 & C4).
+      destruct d; cbn [handler pure_env]; try (apply Triv; assumption).
+      - apply (Hown st p HI).
+      - destruct isr; [apply Triv, agrees_refl|].
+        destruct (Hpar st p (fun m Hm => HI m (or_intror Hm))) as (E1 & E2 & E3).
+        split; [exact E1|]. split.
+        + intros m [->|Hm]; [|apply E2, Hm].
+          eapply InvNode_same; [apply E3, Hni|apply HI; left; reflexivity].
+        + intros m Hm. apply E3. intros Hin. apply Hm. right. exact Hin.
+    Qed.
+
+    Lemma cap_spec_eq q : cap_spec n q = specified fx nd isr (cchain anc) q.
+    Proof. unfold cap_spec. rewrite En, Ec. reflexivity. Qed.
+
+    Lemma keep_frame (s0 : sstyle) a b :
+      frame (fun m => In m anc) a b -> style_of a n = s0 -> style_of b n = s0.
+    Proof. intros F <-. apply F, Hni. Qed.
+
+    Lemma anc_after_set st p v : (forall m, In m anc -> InvNode st m) ->
+      forall m, In m anc -> InvNode (cache_set st n p v) m.
+    Proof.
+      intros HI m Hm. eapply InvNode_same; [|apply HI, Hm].
+      rewrite style_of_cache_set. destruct (N.eqb_spec m n) as [->|]; [contradiction|reflexivity].
+    Qed.
+    Lemma anc_after_del st p : (forall m, In m anc -> InvNode st m) ->
+      forall m, In m anc -> InvNode (cache_del st n p) m.
+    Proof.
+      intros HI m Hm. eapply InvNode_same; [|apply HI, Hm].
+      rewrite style_of_cache_del. destruct (N.eqb_spec m n) as [->|]; [contradiction|reflexivity].
+    Qed.
+
+    Lemma elem_get_ok p :
+      comp n p = elem_pure ar fx nd isr (cchain anc) own_pure (cap_rootfs n) p ->
+      forall st, (forall m, dom m -> InvNode st m) ->
+        agrees (snd (elem_get ar fx n nd isr parent_get own_get st p)) (comp n p) /\
+        (forall m, dom m -> InvNode (fst (elem_get ar fx n nd isr parent_get own_get st p)) m) /\
+        frame dom st (fst (elem_get ar fx n nd isr parent_get own_get st p)).
+    Proof.
+      intros Hcomp st HI. unfold elem_get.
+      assert (HIanc : forall m, In m anc -> InvNode st m) by (intros m Hm; apply HI; right; exact Hm).
+      pose proof (HI n (or_introl eq_refl)) as HIn.
+      destruct (cache_get st n p) as [v0|] eqn:Ecache.
+      { cbn. split; [|split; [exact HI|apply frame_refl]]. apply (proj1 HIn). exact Ecache. }
+      (* what a value of comp n p tells about the stages *)
+      assert (Inv : forall w, comp n p = Ok w -> exists v save v' del,
+                 run_pure (parent_env isr (cchain anc)) (cascade_value fx isr nd p) = Ok (v, save) /\
+                 run_pure (parent_env isr (cchain anc)) (special isr nd p v) = Ok (v', del) /\
+                 if save && negb del then w = v
+                 else run_pure (pure_env isr (cchain anc) own_pure (cap_rootfs n) (cap_spec n PPosition)
+                                  (cap_spec n PDisplay) (cap_spec n PFloat)) (compute ar fx isr nd p v') = Ok w).
+      { intros w Hw. rewrite Hcomp in Hw. rewrite !cap_spec_eq. apply elem_pure_inv, Hw. }
+      (* step 1: cascadeValue *)
+      destruct (run_st_ok (parent_handler isr parent_get) (parent_env isr (cchain anc))
+                  (fun s => (forall m, In m anc -> InvNode s m) /\ style_of s n = style_of st n)
+                  (frame (fun m => In m anc)) (frame_refl _) (frame_trans _)
+                  (parent_handler_ok anc isr parent_get (cchain anc) _ Hpar (keep_frame (style_of st n)))
+                  (cascade_value fx isr nd p) st (conj HIanc eq_refl)) as (R1 & [I1 K1] & F1).
+      destruct (run_st (parent_handler isr parent_get) st (cascade_value fx isr nd p)) as [st1 r1].
+      cbn [fst snd] in R1, I1, K1, F1.
+      assert (Fdom : forall a b, frame (fun m => In m anc) a b -> frame dom a b).
+      { intros a b F m Hm. apply F. intros Hin. apply Hm. right. exact Hin. }
+      assert (Keep : forall s', (forall m, In m anc -> InvNode s' m) -> style_of s' n = style_of st n ->
+                     forall m, dom m -> InvNode s' m).
+      { intros s' Ia Kn m [->|Hm]; [|apply Ia, Hm]. eapply InvNode_same; [exact Kn|exact HIn]. }
+      assert (Fail1 : forall r : res value, (forall v s, r1 <> Ok (v, s)) -> agrees r (comp n p)).
+      { intros r Hr w Hw. destruct (Inv w Hw) as (v & save & v' & del & A1 & _).
+        exfalso. apply (Hr v save). apply R1, A1. }
+      destruct r1 as [[v save]| |].
+      2,3: (cbn; split; [apply Fail1; intros; discriminate|split; [apply Keep; assumption|apply Fdom, F1]]).
+      (* step 2: Set if save, then the special cases *)
+      set (st2 := if save then cache_set st1 n p v else st1).
+      assert (I2 : forall m, In m anc -> InvNode st2 m).
+      { subst st2. destruct save; [apply anc_after_set|]; exact I1. }
+      destruct (run_st_ok (parent_handler isr parent_get) (parent_env isr (cchain anc))
+                  (fun s => (forall m, In m anc -> InvNode s m) /\ style_of s n = style_of st2 n)
+                  (frame (fun m => In m anc)) (frame_refl _) (frame_trans _)
+                  (parent_handler_ok anc isr parent_get (cchain anc) _ Hpar (keep_frame (style_of st2 n)))
+                  (special isr nd p v) st2 (conj I2 eq_refl)) as (R3 & [I3 K3] & F3).
+      destruct (run_st (parent_handler isr parent_get) st2 (special isr nd p v)) as [st3 r3].
+      cbn [fst snd] in R3, I3, K3, F3.
+      assert (F02 : frame dom st st2).
+      { intros m Hm. subst st2. destruct save; [|apply Fdom in F1; apply F1, Hm].
+        rewrite style_of_cache_set. destruct (N.eqb_spec m n) as [->|]; [exfalso; apply Hm; left; reflexivity|].
+        apply Fdom in F1. apply F1, Hm. }
+      assert (F03 : frame dom st st3) by (eapply frame_trans; [exact F02|apply Fdom, F3]).
+      assert (S2 : style_of st2 n = if save then with_cache (style_of st n) (PositiveMap.add (nkey p) v (s_cache (style_of st n))) else style_of st n).
+      { subst st2. destruct save; [|exact K1]. rewrite style_of_cache_set, N.eqb_refl, K1. reflexivity. }
+      (* stage facts under comp n p = Ok w *)
+      assert (Inv3 : forall w, comp n p = Ok w -> exists v' del,
+                 r3 = Ok (v', del) /\
+                 if save && negb del then w = v
+                 else run_pure (pure_env isr (cchain anc) own_pure (cap_rootfs n) (cap_spec n PPosition)
+                                  (cap_spec n PDisplay) (cap_spec n PFloat)) (compute ar fx isr nd p v') = Ok w).
+      { intros w Hw. destruct (Inv w Hw) as (v1 & save1 & v' & del & A1 & A3 & A5).
+        pose proof (R1 _ A1) as E. inversion E; subst v1 save1. exists v', del. split; [apply R3, A3|exact A5]. }
+      destruct r3 as [[v' del]| |].
+      2,3: (cbn; split; [intros w Hw; destruct (Inv3 w Hw) as (? & ? & ? & _); discriminate|split; [|exact F03]];
+            intros m [->|Hm]; [|apply I3, Hm];
+            unfold InvNode; rewrite K3, S2; destruct save; [|exact HIn];
+            eapply (SInv_change n nd _ _ En Ek); [exact HIn|reflexivity..|]; cbn; intros q w; rewrite find_add_key;
+            destruct (N.eqb_spec q p) as [->|]; [|auto]; intros [= <-]; right;
+            intros w' Hw'; destruct (Inv3 w' Hw') as (? & ? & ? & _); discriminate).
+      set (st4 := if del then cache_del st3 n p else st3).
+      assert (I4 : forall m, In m anc -> InvNode st4 m).
+      { subst st4. destruct del; [apply anc_after_del|]; exact I3. }
+      assert (F04 : frame dom st st4).
+      { intros m Hm. subst st4. destruct del; [|apply F03, Hm].
+        rewrite style_of_cache_del. destruct (N.eqb_spec m n) as [->|]; [exfalso; apply Hm; left; reflexivity|].
+        apply F03, Hm. }
+      assert (S4 : style_of st4 n = if del then with_cache (style_of st2 n) (PositiveMap.remove (nkey p) (s_cache (style_of st2 n))) else style_of st2 n).
+      { subst st4. destruct del; [|exact K3]. rewrite style_of_cache_del, N.eqb_refl, K3. reflexivity. }
+      assert (C4 : cache_get st4 n p = if save && negb del then Some v else None).
+      { unfold cache_get. rewrite S4, S2. destruct del, save; cbn.
+        - now rewrite find_remove_key, N.eqb_refl.
+        - now rewrite find_remove_key, N.eqb_refl.
+        - now rewrite find_add_key, N.eqb_refl.
+        - exact Ecache. }
+      cbv beta iota. fold st2. cbv beta iota. fold st4. rewrite C4.
+      destruct (save && negb del) eqn:Esd.
+      { (* saved and not deleted: the saved value is returned *)
+        assert (A : agrees (Ok v) (comp n p)).
+        { intros w Hw. destruct (Inv3 w Hw) as (v1 & del1 & E & A5). inversion E; subst. rewrite Esd in A5. now subst. }
+        cbn. split; [exact A|]. split; [|exact F04].
+        intros m [->|Hm]; [|apply I4, Hm]. unfold InvNode. rewrite S4, S2.
+        destruct del, save; try discriminate. cbn.
+        eapply (SInv_change n nd _ _ En Ek); [exact HIn|reflexivity..|]. cbn. intros q w. rewrite find_add_key.
+        destruct (N.eqb_spec q p) as [->|]; [|auto]. intros [= <-]. right. exact A. }
+      (* compute *)
+      assert (In4 : InvNode st4 n).
+      { unfold InvNode. rewrite S4, S2. eapply (SInv_change n nd _ _ En Ek); [exact HIn|destruct del, save; reflexivity..|].
+        intros q w. destruct del, save; cbn; try discriminate;
+          rewrite ?find_remove_key, ?find_add_key; destruct (N.eqb_spec q p) as [->|]; auto; discriminate. }
+      assert (HI4 : forall m, dom m -> InvNode st4 m).
+      { intros m [->|Hm]; [exact In4|apply I4, Hm]. }
+      destruct (run_st_ok (handler n isr parent_get own_get)
+                  (pure_env isr (cchain anc) own_pure (cap_rootfs n) (cap_spec n PPosition) (cap_spec n PDisplay) (cap_spec n PFloat))
+                  (fun s => forall m, dom m -> InvNode s m) (frame dom) (frame_refl _) (frame_trans _)
+                  handler_ok (compute ar fx isr nd p v') st4 HI4) as (R5 & I5 & F5).
+      destruct (run_st (handler n isr parent_get own_get) st4 (compute ar fx isr nd p v')) as [st5 r5].
+      cbn [fst snd] in R5, I5, F5.
+      assert (A5 : agrees r5 (comp n p)).
+      { intros w Hw. destruct (Inv3 w Hw) as (v1 & del1 & E & A5). inversion E; subst. rewrite Esd in A5. apply R5, A5. }
+      destruct r5 as [out| |]; cbn.
+      2,3: (split; [exact A5|split; [exact I5|eapply frame_trans; [exact F04|exact F5]]]).
+      split; [exact A5|]. split.
+      - intros m [->|Hm].
+        + unfold InvNode. rewrite style_of_cache_set, N.eqb_refl.
+          eapply (SInv_change n nd _ _ En Ek); [exact (I5 n (or_introl eq_refl))|reflexivity..|]. cbn. intros q w.
+          rewrite find_add_key. destruct (N.eqb_spec q p) as [->|]; [|auto]. intros [= <-]. right. exact A5.
+        + eapply InvNode_same; [|apply I5; right; exact Hm]. rewrite style_of_cache_set.
+          destruct (N.eqb_spec m n) as [->|]; [contradiction|reflexivity].
+      - intros m Hm. rewrite style_of_cache_set.
+        destruct (N.eqb_spec m n) as [->|]; [exfalso; apply Hm; left; reflexivity|].
+        eapply frame_trans; [exact F04|exact F5|exact Hm].
+    Qed.
+  End Elem.
+
+  Section Anon.
+    Variables (n : N) (nd : node) (anc : list N) (parent_get : getter).
+    Hypothesis En : node_at t n = Some nd.
+    Hypothesis Ek : n_kind nd = KAnon.
+    Hypothesis Hni : ~ In n anc.
+    Hypothesis Hpar : getter_ok parent_get (cchain anc) (fun m => In m anc).
+    Let dom := fun m => m = n \/ In m anc.
+    Let isr := is_last anc.
+
+    Lemma SInv_add_anon s p v :
+      SInv n s -> agrees (Ok v) (comp n p) -> PositiveMap.find (nkey p) (s_cache s) = None ->
+      SInv n (with_cache s (PositiveMap.add (nkey p) v (s_cache s))).
+    Proof.
+      intros (H1 & H2 & H3) Hv Hnone. split; [|split].
+      - cbn. intros q w. rewrite find_add_key. destruct (N.eqb_spec q p) as [->|]; [|apply H1].
+        intros [= <-]. exact Hv.
+      - intros nd' En' Ek'. rewrite En in En'. inversion En'; subst. congruence.
+      - intros nd' En' Ek' q Hq. cbn. rewrite find_add_key.
+        destruct (N.eqb_spec q p) as [->|]; [|apply (H3 nd' En' Ek' q Hq)].
+        rewrite (H3 nd' En' Ek' p Hq) in Hnone. discriminate.
+    Qed.
+
+    Lemma anon_handler_ok (s0 : sstyle) st d :
+      ((forall m, In m anc -> InvNode st m) /\ style_of st n = s0) ->
+      agrees (snd (anon_handler isr parent_get st d)) (anon_env isr (cchain anc) d) /\
+      ((forall m, In m anc -> InvNode (fst (anon_handler isr parent_get st d)) m) /\ style_of (fst (anon_handler isr parent_get st d)) n = s0) /\
+      frame (fun m => In m anc) st (fst (anon_handler isr parent_get st d)).
+    Proof.
+      intros [HI HK]. unfold anon_handler, anon_env.
+      assert (Triv : forall r, agrees (snd (st, r : res value)) r /\
+                ((forall m, In m anc -> InvNode (fst (st, r)) m) /\ style_of (fst (st, r)) n = s0) /\
+                frame (fun m => In m anc) st (fst (st, r))).
+      { intros r. cbn. split; [apply agrees_refl|]. split; [split; assumption|apply frame_refl]. }
+      destruct d; try apply Triv.
+      destruct isr; [apply Triv|].
+      destruct (Hpar st p HI) as (E1 & E2 & E3).
+      split; [exact E1|]. split; [split; [exact E2|]|exact E3].
+      rewrite <- HK. apply E3, Hni.
+    Qed.
+
+    Lemma anon_get_ok p :
+      comp n p = anon_pure isr (cchain anc) p ->
+      forall st, (forall m, dom m -> InvNode st m) ->
+        agrees (snd (anon_get n isr parent_get st p)) (comp n p) /\
+        (forall m, dom m -> InvNode (fst (anon_get n isr parent_get st p)) m) /\
+        frame dom st (fst (anon_get n isr parent_get st p)).
+    Proof.
+      intros Hcomp st HI. unfold anon_get.
+      assert (HIanc : forall m, In m anc -> InvNode st m) by (intros m Hm; apply HI; right; exact Hm).
+      pose proof (HI n (or_introl eq_refl)) as HIn.
+      destruct (cache_get st n p) as [v0|] eqn:Ecache.
+      { cbn. split; [|split; [exact HI|apply frame_refl]]. apply (proj1 HIn). exact Ecache. }
+      assert (Hnp : mem_N p anon_presets = false).
+      { destruct (mem_N p anon_presets) eqn:E; [|reflexivity]. exfalso.
+        unfold mem_N in E. apply existsb_exists in E. destruct E as (q & Hq & Eq).
+        apply N.eqb_eq in Eq. subst q.
+        pose proof (proj2 (proj2 HIn) nd En Ek p Hq) as Hc. unfold cache_get in Ecache. congruence. }
+      destruct (run_st_ok (anon_handler isr parent_get) (anon_env isr (cchain anc))
+                  (fun s => (forall m, In m anc -> InvNode s m) /\ style_of s n = style_of st n)
+                  (frame (fun m => In m anc)) (frame_refl _) (frame_trans _)
+                  (anon_handler_ok (style_of st n)) (anon_value p) st (conj HIanc eq_refl)) as (R1 & [I1 K1] & F1).
+      destruct (run_st (anon_handler isr parent_get) st (anon_value p)) as [st1 r1].
+      cbn [fst snd] in R1, I1, K1, F1.
+      assert (A : agrees r1 (comp n p)).
+      { rewrite Hcomp. unfold anon_pure. rewrite Hnp. exact R1. }
+      assert (Fdom : frame dom st st1).
+      { intros m Hm. apply F1. intros Hin. apply Hm. right. exact Hin. }
+      destruct r1 as [v| |]; cbn.
+      2,3: (split; [exact A|split; [|exact Fdom]]; intros m [->|Hm]; [|apply I1, Hm];
+            eapply InvNode_same; [exact K1|exact HIn]).
+      split; [exact A|]. split.
+      - intros m [->|Hm].
+        + unfold InvNode. rewrite style_of_cache_set, N.eqb_refl, K1.
+          apply SInv_add_anon; [exact HIn|exact A|exact Ecache].
+        + eapply InvNode_same; [|apply I1, Hm]. rewrite style_of_cache_set.
+          destruct (N.eqb_spec m n) as [->|]; [contradiction|reflexivity].
+      - intros m Hm. rewrite style_of_cache_set.
+        destruct (N.eqb_spec m n) as [->|]; [exfalso; apply Hm; left; reflexivity|]. apply Fdom, Hm.
+    Qed.
+  End Anon.
+
+  Lemma comp_unfold n nd :
+    node_at t n = Some nd ->
+    let anc := match n_parent nd with Some j => chain_of t j | None => [] end in
+    chain_of t n = n :: anc /\ ~ In n anc /\
+    (forall p, comp n p =
+       match n_kind nd with
+       | KAnon => anon_pure (is_last anc) (cchain anc) p
+       | KElem =>
+           let base := elem_pure ar fx nd (is_last anc) (cchain anc) diverge_pure (cap_rootfs n) in
+           if is_base p then base p
+           else elem_pure ar fx nd (is_last anc) (cchain anc)
+                  (fun q => if is_base q then base q else Panic 7) (cap_rootfs n) p
+       end).
+  Proof.
+    intros En anc. pose proof (chain_of_step t WF n nd En) as Ec. fold anc in Ec.
+    split; [exact Ec|]. split.
+    - subst anc. destruct (n_parent nd) as [j|] eqn:Ep; [|intros []].
+      intros Hin. pose proof (chain_of_le t WF j n Hin). pose proof (parent_lt t WF n nd j En Ep). lia.
+    - intros p. unfold computed, cap_rootfs. rewrite Ec. cbn [computed_chain]. rewrite En.
+      destruct anc; reflexivity.
+  Qed.
+
+  Lemma diverge_ok dom : getter_ok diverge diverge_pure dom.
+  Proof.
+    intros st q HI. unfold diverge, diverge_pure. cbn.
+    split; [apply agrees_refl|]. split; [exact HI|apply frame_refl].
+  Qed.
+
+  Lemma get_ok : forall n nd, node_at t n = Some nd ->
+    getter_ok (get_chain ar fx t (chain_of t n)) (comp n) (fun m => In m (chain_of t n)).
+  Proof.
+    intros n. induction n as [n IH] using (well_founded_induction N.lt_wf_0). intros nd En.
+    destruct (comp_unfold n nd En) as (Ec & Hni & Hcomp).
+    set (anc := match n_parent nd with Some j => chain_of t j | None => [] end) in *.
+    assert (Hpar : getter_ok (fun st q => get_chain ar fx t anc st q) (cchain anc) (fun m => In m anc)).
+    { subst anc. destruct (n_parent nd) as [j|] eqn:Ep.
+      - destruct (node_at_parent t WF n nd j En Ep) as [ndj Ej].
+        apply (IH j (parent_lt t WF n nd j En Ep) ndj Ej).
+      - intros st q HI. cbn. split; [apply agrees_refl|]. split; [exact HI|apply frame_refl]. }
+    rewrite Ec. intros st q HI.
+    assert (HI' : forall m, m = n \/ In m anc -> InvNode st m).
+    { intros m [->|Hm]; apply HI; [left; reflexivity|right; exact Hm]. }
+    cbn [get_chain]. rewrite En. specialize (Hcomp q).
+    destruct (n_kind nd) eqn:Ek.
+    - (* element *)
+      cbv zeta in Hcomp.
+      pose proof (elem_get_ok n nd anc (fun st q => get_chain ar fx t anc st q) diverge diverge_pure
+                    En Ek Ec Hni Hpar (diverge_ok _)) as Hbase.
+      destruct (is_base q) eqn:Eb.
+      + destruct (Hbase q Hcomp st HI') as (A & B & C). split; [exact A|]. split;
+          [intros m [<-|Hm]; apply B; [left; reflexivity|right; exact Hm]
+          |intros m Hm; apply C; intros [->|H]; apply Hm; [left; reflexivity|right; exact H]].
+      + assert (Hown : getter_ok
+                  (fun st q => if is_base q then elem_get ar fx n nd (is_last anc) (fun st q => get_chain ar fx t anc st q) diverge st q else (st, Panic 7))
+                  (fun q => if is_base q then elem_pure ar fx nd (is_last anc) (cchain anc) diverge_pure (cap_rootfs n) q else Panic 7)
+                  (fun m => m = n \/ In m anc)).
+        { intros st' q' HIq. destruct (is_base q') eqn:Eb'.
+          - assert (Hc' : comp n q' = elem_pure ar fx nd (is_last anc) (cchain anc) diverge_pure (cap_rootfs n) q').
+            { destruct (comp_unfold n nd En) as (_ & _ & Hc). rewrite (Hc q'), Ek. cbv zeta. now rewrite Eb'. }
+            rewrite <- Hc'. apply (Hbase q' Hc' st' HIq).
+          - cbn. split; [apply agrees_refl|]. split; [exact HIq|apply frame_refl]. }
+        destruct (elem_get_ok n nd anc _ _ _ En Ek Ec Hni Hpar Hown q Hcomp st HI') as (A & B & C).
+        split; [exact A|]. split;
+          [intros m [<-|Hm]; apply B; [left; reflexivity|right; exact Hm]
+          |intros m Hm; apply C; intros [->|H]; apply Hm; [left; reflexivity|right; exact H]].
+    - (* anonymous *)
+      destruct (anon_get_ok n nd anc (fun st q => get_chain ar fx t anc st q) En Ek Hni Hpar q Hcomp st HI') as (A & B & C).
+split; [exact A|]. split;
+          [intros m [<-|Hm]; apply B; [left; reflexivity|right; exact Hm]
+          |intros m Hm; apply C; intros [->|H]; apply Hm; [left; reflexivity|right; exact H]].
+  Qed.
+
+  (* the root's own evaluation does not use the root font size parameter *)
+  Lemma root_chain_param X Y q : computed_chain ar fx t X [0] q = computed_chain ar fx t Y [0] q.
+  Proof. cbn [computed_chain]. destruct (node_at t 0) as [nd|]; [|reflexivity]. destruct (n_kind nd); reflexivity. Qed.
+
+  Lemma last_In {A} (l : list A) d : l <> [] -> In (last l d) l.
+  Proof.
+    induction l as [|a r IH]; [congruence|]. intros _. destruct r as [|b r']; [left; reflexivity|].
+    right. apply IH. congruence.
+  Qed.
+
+  Lemma InvNode_add_other st n s m : m <> n -> InvNode st m -> InvNode (PositiveMap.add (nkey n) s st) m.
+  Proof.
+    intros Hne. apply InvNode_same. rewrite style_of_add.
+    destruct (N.eqb_spec m n); [contradiction|reflexivity].
+  Qed.
+
+  Lemma style_of_fold_set v l : forall st n m,
+    style_of (fold_left (fun s p => cache_set s n p v) l st) m =
+    if N.eqb m n then with_cache (style_of st n)
+                        (fold_left (fun c p => PositiveMap.add (nkey p) v c) l (s_cache (style_of st n)))
+    else style_of st m.
+  Proof.
+    induction l as [|p l IH]; intros st n m; cbn [fold_left].
+    - destruct (N.eqb_spec m n) as [->|]; [|reflexivity]. now destruct (style_of st n).
+    - rewrite IH, !style_of_cache_set, N.eqb_refl. destruct (N.eqb m n); reflexivity.
+  Qed.
+
+  Lemma preset_cache_find q :
+    PositiveMap.find (nkey q) (fold_left (fun c p => PositiveMap.add (nkey p) dim_zero_null c) anon_presets (PositiveMap.empty value))
+    = if mem_N q anon_presets then Some dim_zero_null else None.
+  Proof.
+    unfold anon_presets, mem_N. cbn [fold_left existsb]. rewrite !find_add_key, PositiveMap.gempty.
+    repeat (match goal with |- context [N.eqb q ?x] => destruct (N.eqb q x) end); reflexivity.
+  Qed.
+
+  (* the cache-free counterparts of the steps of a construction all give a value *)
+  Definition construct_pure_ok (n : N) (nd : node) : Prop :=
+    match n_kind nd with
+    | KElem => (exists v, cap_rootfs n = Ok v) /\ (exists v, cap_spec n PPosition = Ok v) /\
+               (exists v, cap_spec n PDisplay = Ok v) /\ (exists v, cap_spec n PFloat = Ok v) /\
+               (exists s, comp n PAnchor = Ok (VStr s))
+    | KAnon => (exists v, comp n PDisplay = Ok v) /\ (exists v, comp n PFloat = Ok v) /\
+               (exists v, comp n PPosition = Ok v)
+    end.
+
+  Lemma construct_ok n nd st st' rr :
+    node_at t n = Some nd ->
+    (forall m, In m (chain_of t n) -> m <> n -> InvNode st m) ->
+    construct ar fx t st n = (st', rr) ->
+    (rr = Ok tt -> (forall m, In m (chain_of t n) -> InvNode st' m) /\ frame (fun m => In m (chain_of t n)) st st') /\
+    (construct_pure_ok n nd -> rr = Ok tt).
+  Proof.
+    intros En HI. destruct (comp_unfold n nd En) as (Ec & Hni & Hcomp).
+    set (anc := match n_parent nd with Some j => chain_of t j | None => [] end) in *.
+    assert (HIanc : forall m, In m anc -> InvNode st m).
+    { intros m Hm. apply HI; [rewrite Ec; right; exact Hm|]. intros ->. contradiction. }
+    assert (Hpar : getter_ok (fun st q => get_chain ar fx t anc st q) (cchain anc) (fun m => In m anc)).
+    { subst anc. destruct (n_parent nd) as [j|] eqn:Ep.
+      - destruct (node_at_parent t WF n nd j En Ep) as [ndj Ej]. apply (get_ok j ndj Ej).
+      - intros s q H. cbn. split; [apply agrees_refl|]. split; [exact H|apply frame_refl]. }
+    assert (Fdom : forall a b, frame (fun m => In m anc) a b -> frame (fun m => In m (n :: anc)) a b).
+    { intros a b F m Hm. apply F. intros Hin. apply Hm. right. exact Hin. }
+    unfold construct, construct_pure_ok. rewrite En, Ec. fold anc.
+    destruct (n_kind nd) eqn:Ek.
+    - (* element *)
+      (* root font size *)
+      assert (Hrfs : forall st1 rfs,
+                 (if is_last anc then (st, initial_fs_value ) else get_chain ar fx t [last (n :: anc) 0] st PFontSize) = (st1, rfs) ->
+                 agrees rfs (cap_rootfs n) /\ (forall m, In m anc -> InvNode st1 m) /\ frame (fun m => In m anc) st st1).
+      { intros st1 rfs E. unfold cap_rootfs. rewrite Ec. destruct anc as [|a anc'] eqn:Ea.
+        - cbn in E. inversion E; subst. split; [apply agrees_refl|]. split; [exact HIanc|apply frame_refl].
+        - cbn [is_last] in E.
+          assert (E0 : last (n :: a :: anc') 0 = 0) by (rewrite <- Ec; apply (chain_of_last t WF n nd En)).
+          rewrite E0 in E.
+          assert (exists nd0, node_at t 0 = Some nd0) as [nd0 En0].
+          { unfold node_at in *. destruct (nth_error t (N.to_nat 0)) eqn:E'; eauto.
+            apply nth_error_None in E'. pose proof (node_at_lt t n nd En). lia. }
+          pose proof (get_ok 0 nd0 En0) as G. rewrite (chain_of_zero t WF nd0 En0) in G.
+          assert (In0 : In 0 (a :: anc')).
+          { assert (H : In (last (n :: a :: anc') 0) (a :: anc')) by (apply (last_In (a :: anc') 0); congruence).
+            now rewrite E0 in H. }
+          destruct (G st PFontSize) as (A & B & C).
+          { intros m [<-|[]]. apply HIanc. exact In0. }
+          rewrite E in A, B, C. cbn [fst snd] in A, B, C.
+          split; [|split].
+          + unfold root_fs_pure. unfold computed in A. rewrite (chain_of_zero t WF nd0 En0) in A.
+            rewrite (root_chain_param _ rfs0). exact A.
+          + intros m Hm. destruct (N.eq_dec m 0) as [->|Hne]; [apply B; left; reflexivity|].
+            eapply InvNode_same; [apply C; intros [H|[]]; congruence|apply HIanc, Hm].
+          + intros m Hm. apply C. intros [<-|[]]. contradiction. }
+      destruct (if is_last anc then (st, initial_fs_value) else get_chain ar fx t [last (n :: anc) 0] st PFontSize) as [st1 rfs] eqn:E1.
+      destruct (Hrfs st1 rfs eq_refl) as (A1 & I1 & F1).
+      destruct rfs as [rf| |];
+        try (intros H; inversion H; subst; split; [intros X; discriminate X|];
+             intros ((w & Hw) & _); specialize (A1 _ Hw); discriminate A1).
+      (* specified values *)
+      assert (Hspec : forall s q, (forall m, In m anc -> InvNode s m) ->
+                 let r := run_st (parent_handler (is_last anc) (fun st q => get_chain ar fx t anc st q)) s (cascade_value fx (is_last anc) nd q) in
+                 (forall v b, snd r = Ok (v, b) -> agrees (Ok v) (cap_spec n q)) /\
+                 (forall w, cap_spec n q = Ok w -> exists b, snd r = Ok (w, b)) /\
+                 (forall m, In m anc -> InvNode (fst r) m) /\ frame (fun m => In m anc) s (fst r)).
+      { intros s q Hs r.
+        destruct (run_st_ok (parent_handler (is_last anc) (fun st q => get_chain ar fx t anc st q)) (parent_env (is_last anc) (cchain anc))
+                    (fun s => (forall m, In m anc -> InvNode s m) /\ True)
+                    (frame (fun m => In m anc)) (frame_refl _) (frame_trans _)
+                    (parent_handler_ok anc _ _ (cchain anc) (fun _ => True) Hpar (fun _ _ _ _ => I))
+                    (cascade_value fx (is_last anc) nd q) s (conj Hs I)) as (R & [Ia _] & F).
+        fold r in R, Ia, F. split; [|split; [|split; assumption]].
+        - intros v b Hr w Hw. unfold cap_spec in Hw. rewrite En, Ec in Hw. unfold specified in Hw.
+          destruct (run_pure (parent_env (is_last anc) (cchain anc)) (cascade_value fx (is_last anc) nd q)) as [[v1 b1]| |] eqn:Ep; try discriminate.
+          cbn in Hw. inversion Hw; subst. specialize (R _ eq_refl). rewrite Hr in R. inversion R; subst. reflexivity.
+        - intros w Hw. unfold cap_spec in Hw. rewrite En, Ec in Hw. unfold specified in Hw.
+          destruct (run_pure (parent_env (is_last anc) (cchain anc)) (cascade_value fx (is_last anc) nd q)) as [[v1 b1]| |] eqn:Ep; try discriminate.
+          cbn in Hw. inversion Hw; subst. exists b1. apply R. reflexivity. }
+      destruct (Hspec st1 PPosition I1) as (A2 & B2 & I2 & F2).
+      destruct (run_st _ st1 (cascade_value fx (is_last anc) nd PPosition)) as [st2 r2]. cbn [fst snd] in A2, B2, I2, F2.
+      destruct r2 as [[pos b2]| |];
+        try (intros H; inversion H; subst; split; [intros X; discriminate X|];
+             intros (_ & (w & Hw) & _); destruct (B2 _ Hw) as [b0 Hb0]; discriminate Hb0).
+      destruct (Hspec st2 PDisplay I2) as (A3 & B3 & I3 & F3).
+      destruct (run_st _ st2 (cascade_value fx (is_last anc) nd PDisplay)) as [st3 r3]. cbn [fst snd] in A3, B3, I3, F3.
+      destruct r3 as [[disp b3]| |];
+        try (intros H; inversion H; subst; split; [intros X; discriminate X|];
+             intros (_ & _ & (w & Hw) & _); destruct (B3 _ Hw) as [b0 Hb0]; discriminate Hb0).
+      destruct (Hspec st3 PFloat I3) as (A4 & B4 & I4 & F4).
+      destruct (run_st _ st3 (cascade_value fx (is_last anc) nd PFloat)) as [st4 r4]. cbn [fst snd] in A4, B4, I4, F4.
+      destruct r4 as [[fl b4]| |];
+        try (intros H; inversion H; subst; split; [intros X; discriminate X|];
+             intros (_ & _ & _ & (w & Hw) & _); destruct (B4 _ Hw) as [b0 Hb0]; discriminate Hb0).
+      set (st5 := PositiveMap.add (nkey n) (mkStyle (PositiveMap.empty value) rf pos disp fl) st4).
+      assert (I5 : forall m, In m (n :: anc) -> InvNode st5 m).
+      { intros m [<-|Hm].
+        - unfold InvNode, st5. rewrite style_of_add, N.eqb_refl. split; [|split].
+          + cbn. intros q w. rewrite PositiveMap.gempty. discriminate.
+          + intros nd' _ _. cbn. repeat split; [exact A1|apply (A2 _ _ eq_refl)|apply (A3 _ _ eq_refl)|apply (A4 _ _ eq_refl)].
+          + intros nd' En' Ek'. rewrite En in En'. inversion En'; subst. congruence.
+        - apply InvNode_add_other; [intros ->; contradiction|apply I4, Hm]. }
+      pose proof (get_ok n nd En) as G. rewrite Ec in G. destruct (G st5 PAnchor I5) as (A6 & I6 & F6).
+      destruct (get_chain ar fx t (n :: anc) st5 PAnchor) as [st6 r6]. cbn [fst snd] in A6, I6, F6.
+      destruct r6 as [[]| |]; intros H; inversion H; subst;
+        (split; [try (intros X; discriminate X)
+                |try (intros (_ & _ & _ & _ & (s0 & Hs0)); specialize (A6 _ Hs0); discriminate A6)]);
+        [|reflexivity].
+      intros _. split; [exact I6|].
+      intros m Hm. rewrite (F6 m Hm). unfold st5. rewrite style_of_add.
+      destruct (N.eqb_spec m n) as [->|]; [exfalso; apply Hm; left; reflexivity|].
+      assert (Hm' : ~ In m anc) by (intros Hin; apply Hm; right; exact Hin).
+      rewrite (F4 m Hm'), (F3 m Hm'), (F2 m Hm'). apply F1, Hm'.
+    - (* anonymous *)
+      set (st1 := PositiveMap.add (nkey n) empty_style st).
+      set (st2 := fold_left (fun s p => cache_set s n p dim_zero_null) anon_presets st1).
+      assert (S2 : forall m, style_of st2 m = if N.eqb m n then
+                  with_cache empty_style (fold_left (fun c p => PositiveMap.add (nkey p) dim_zero_null c) anon_presets (PositiveMap.empty value))
+                  else style_of st m).
+      { intros m. subst st2 st1. rewrite style_of_fold_set, !style_of_add, N.eqb_refl.
+        destruct (N.eqb m n); reflexivity. }
+      assert (I2 : forall m, In m (n :: anc) -> InvNode st2 m).
+      { intros m [<-|Hm].
+        - unfold InvNode. rewrite S2, N.eqb_refl. split; [|split].
+          + cbn [s_cache with_cache]. intros q w. rewrite preset_cache_find.
+            destruct (mem_N q anon_presets) eqn:Eq; [|discriminate]. intros [= <-].
+            rewrite Hcomp. unfold anon_pure. rewrite Eq. apply agrees_refl.
+          + intros nd' En' Ek'. rewrite En in En'. inversion En'; subst. congruence.
+          + intros nd' _ _ q Hq. cbn [s_cache with_cache]. rewrite preset_cache_find.
+            replace (mem_N q anon_presets) with true; [reflexivity|].
+            symmetry. apply existsb_exists. exists q. split; [exact Hq|apply N.eqb_refl].
+        - eapply InvNode_same; [|apply HIanc, Hm]. rewrite S2.
+          destruct (N.eqb_spec m n) as [->|]; [contradiction|reflexivity]. }
+      pose proof (get_ok n nd En) as G. rewrite Ec in G.
+      destruct (G st2 PDisplay I2) as (A3 & I3 & F3).
+      destruct (get_chain ar fx t (n :: anc) st2 PDisplay) as [st3 r3]. cbn [fst snd] in A3, I3, F3.
+      destruct r3 as [disp| |];
+        try (intros H; inversion H; subst; split; [intros X; discriminate X|];
+             intros ((w & Hw) & _); specialize (A3 _ Hw); discriminate A3).
+      destruct (G st3 PFloat I3) as (A4 & I4 & F4).
+      destruct (get_chain ar fx t (n :: anc) st3 PFloat) as [st4 r4]. cbn [fst snd] in A4, I4, F4.
+      destruct r4 as [fl| |];
+        try (intros H; inversion H; subst; split; [intros X; discriminate X|];
+             intros (_ & (w & Hw) & _); specialize (A4 _ Hw); discriminate A4).
+      destruct (G st4 PPosition I4) as (A5 & I5 & F5).
+      destruct (get_chain ar fx t (n :: anc) st4 PPosition) as [st5 r5]. cbn [fst snd] in A5, I5, F5.
+      destruct r5 as [pos| |];
+        try (intros H; inversion H; subst; split; [intros X; discriminate X|];
+             intros (_ & _ & (w & Hw)); specialize (A5 _ Hw); discriminate A5).
+      intros H. inversion H; subst. split; [|reflexivity]. intros _. split.
+      + intros m [<-|Hm].
+        * unfold InvNode. rewrite style_of_add, N.eqb_refl.
+          destruct (I5 n (or_introl eq_refl)) as (C1 & C2 & C3). split; [exact C1|]. split; [|exact C3].
+          intros nd' En' Ek'. rewrite En in En'. inversion En'; subst. congruence.
+        * apply InvNode_add_other; [intros ->; contradiction|apply I5; right; exact Hm].
+      + intros m Hm. rewrite style_of_add.
+        destruct (N.eqb_spec m n) as [->|Hne]; [exfalso; apply Hm; left; reflexivity|].
+        rewrite (F5 m Hm), (F4 m Hm), (F3 m Hm), S2.
+        destruct (N.eqb_spec m n); [contradiction|reflexivity].
+  Qed.
+
+  (* ---------------------------------------------------------------- histories *)
+
+  (* well-formed history: a style is used only after it has been constructed, and
+     constructed only after the style it inherits from *)
+  Fixpoint hist_ok (c : list N) (ops : list op) : Prop :=
+    match ops with
+    | [] => True
+    | OGet n p :: r => In n c /\ hist_ok c r
+    | OConstruct n :: r =>
+        (exists nd, node_at t n = Some nd /\ forall j, n_parent nd = Some j -> In j c) /\ hist_ok (n :: c) r
+    end.
+
+  Definition closed (c : list N) : Prop :=
+    forall m, In m c -> exists nd, node_at t m = Some nd /\ forall j, n_parent nd = Some j -> In j c.
+
+  Lemma closed_chain c : closed c -> forall m, In m c -> forall x, In x (chain_of t m) -> In x c.
+  Proof.
+    intros Hc m. induction m as [m IH] using (well_founded_induction N.lt_wf_0). intros Hm x Hx.
+    destruct (Hc m Hm) as (nd & En & Hp). rewrite (chain_of_step t WF m nd En) in Hx.
+    destruct Hx as [<-|Hx]; [exact Hm|]. destruct (n_parent nd) as [j|] eqn:Ep; [|contradiction].
+    apply (IH j (parent_lt t WF m nd j En Ep) (Hp j eq_refl) x Hx).
+  Qed.
+
+  Definition constructs_succeed (ops : list op) (rs : list (res (option value))) : Prop :=
+    Forall2 (fun o r => match o with OConstruct _ => r = Ok None | OGet _ _ => True end) ops rs.
+
+  Definition gets_agree (ops : list op) (rs : list (res (option value))) : Prop :=
+    Forall2 (fun o r => match o with
+                        | OGet n p => agrees r (res_map Some (comp n p))
+                        | OConstruct _ => True
+                        end) ops rs.
+
+  Lemma transparent_hist : forall ops c st,
+    closed c -> (forall m, In m c -> InvNode st m) -> hist_ok c ops ->
+    constructs_succeed ops (snd (run_ops ar fx t st ops)) ->
+    gets_agree ops (snd (run_ops ar fx t st ops)).
+  Proof.
+    induction ops as [|o ops IH]; intros c st Hc HI Hh Hs; cbn [run_ops].
+    - constructor.
+    - cbn [run_ops] in Hs. destruct o as [n p|n]; cbn [step] in *.
+      + destruct Hh as [Hn Hh]. destruct (Hc n Hn) as (nd & En & _).
+        pose proof (get_ok n nd En st p) as G. unfold get in *.
+        destruct (get_chain ar fx t (chain_of t n) st p) as [st' r].
+        destruct G as (A & B & C). { intros m Hm. apply HI. apply (closed_chain c Hc n Hn m Hm). }
+        cbn [fst snd] in A, B, C.
+        assert (HI' : forall m, In m c -> InvNode st' m).
+        { intros m Hm. destruct (in_dec N.eq_dec m (chain_of t n)) as [Hin|Hnin]; [apply B, Hin|].
+          eapply InvNode_same; [apply C, Hnin|apply HI, Hm]. }
+        specialize (IH c st' Hc HI' Hh).
+        destruct (run_ops ar fx t st' ops) as [st'' xs]. cbn [snd] in *.
+        inversion Hs; subst. constructor; [|apply IH; assumption].
+        intros a Ha. destruct (comp n p) as [v| |]; cbn in Ha; try discriminate.
+        inversion Ha; subst. now rewrite (A v eq_refl).
+      + destruct Hh as [(nd & En & Hp) Hh].
+        pose proof (fun st' r => construct_ok n nd st st' r) as Cn.
+        destruct (construct ar fx t st n) as [st' r].
+        destruct (run_ops ar fx t st' ops) as [st'' xs] eqn:Er. cbn [snd] in *.
+        inversion Hs; subst. constructor; [exact I|].
+        destruct r as [[]| |]; cbn in H2; try discriminate.
+        assert (Hc' : closed (n :: c)).
+        { intros m [<-|Hm].
+          - exists nd. split; [exact En|]. intros j Hj. right. apply Hp, Hj.
+          - destruct (Hc m Hm) as (ndm & Em & Hpm). exists ndm. split; [exact Em|]. intros j Hj. right. apply Hpm, Hj. }
+        assert (Hchain : forall m, In m (chain_of t n) -> m <> n -> In m c).
+        { intros m Hm Hne. destruct (closed_chain (n :: c) Hc' n (or_introl eq_refl) m Hm) as [->|H]; [congruence|exact H]. }
+        destruct (proj1 (Cn st' (Ok tt) En (fun m Hm Hne => HI m (Hchain m Hm Hne)) eq_refl) eq_refl) as [B C].
+        assert (HI' : forall m, In m (n :: c) -> InvNode st' m).
+        { intros m Hm. destruct (in_dec N.eq_dec m (chain_of t n)) as [Hin|Hnin]; [apply B, Hin|].
+          destruct Hm as [<-|Hm].
+          - exfalso. apply Hnin. rewrite (chain_of_step t WF n nd En). left. reflexivity.
+          - eapply InvNode_same; [apply C, Hnin|apply HI, Hm]. }
+        specialize (IH (n :: c) st' Hc' HI' Hh). rewrite Er in IH. apply IH. assumption.
+  Qed.
+
+  (* when the cache-free semantics of every construction step gives a value, constructions
+     succeed as well *)
+  Definition hist_agrees (ops : list op) (rs : list (res (option value))) : Prop :=
+    Forall2 (fun o r => match o with
+                        | OGet n p => agrees r (res_map Some (comp n p))
+                        | OConstruct _ => r = Ok None
+                        end) ops rs.
+
+  Lemma transparent_hist_total :
+    (forall n nd, node_at t n = Some nd -> construct_pure_ok n nd) ->
+    forall ops c st,
+    closed c -> (forall m, In m c -> InvNode st m) -> hist_ok c ops ->
+    hist_agrees ops (snd (run_ops ar fx t st ops)).
+  Proof.
+    intros Hpure. induction ops as [|o ops IH]; intros c st Hc HI Hh; cbn [run_ops].
+    - constructor.
+    - destruct o as [n p|n]; cbn [step] in *.
+      + destruct Hh as [Hn Hh]. destruct (Hc n Hn) as (nd & En & _).
+        pose proof (get_ok n nd En st p) as G. unfold get in *.
+        destruct (get_chain ar fx t (chain_of t n) st p) as [st' r].
+        destruct G as (A & B & C). { intros m Hm. apply HI. apply (closed_chain c Hc n Hn m Hm). }
+        cbn [fst snd] in A, B, C.
+        assert (HI' : forall m, In m c -> InvNode st' m).
+        { intros m Hm. destruct (in_dec N.eq_dec m (chain_of t n)) as [Hin|Hnin]; [apply B, Hin|].
+          eapply InvNode_same; [apply C, Hnin|apply HI, Hm]. }
+        specialize (IH c st' Hc HI' Hh).
+        destruct (run_ops ar fx t st' ops) as [st'' xs]. cbn [snd] in *.
+        constructor; [|exact IH].
+        intros a Ha. destruct (comp n p) as [v| |]; cbn in Ha; try discriminate.
+        inversion Ha; subst. now rewrite (A v eq_refl).
+      + destruct Hh as [(nd & En & Hp) Hh].
+        pose proof (fun st' r => construct_ok n nd st st' r) as Cn.
+        destruct (construct ar fx t st n) as [st' r].
+        assert (Hc' : closed (n :: c)).
+        { intros m [<-|Hm].
+          - exists nd. split; [exact En|]. intros j Hj. right. apply Hp, Hj.
+          - destruct (Hc m Hm) as (ndm & Em & Hpm). exists ndm. split; [exact Em|]. intros j Hj. right. apply Hpm, Hj. }
+        assert (Hchain : forall m, In m (chain_of t n) -> m <> n -> In m c).
+        { intros m Hm Hne. destruct (closed_chain (n :: c) Hc' n (or_introl eq_refl) m Hm) as [->|H]; [congruence|exact H]. }
+        destruct (Cn st' r En (fun m Hm Hne => HI m (Hchain m Hm Hne)) eq_refl) as [Hinv Hsucc].
+        specialize (Hsucc (Hpure n nd En)). subst r. destruct (Hinv eq_refl) as [B C].
+        assert (HI' : forall m, In m (n :: c) -> InvNode st' m).
+        { intros m Hm. destruct (in_dec N.eq_dec m (chain_of t n)) as [Hin|Hnin]; [apply B, Hin|].
+          destruct Hm as [<-|Hm].
+          - exfalso. apply Hnin. rewrite (chain_of_step t WF n nd En). left. reflexivity.
+          - eapply InvNode_same; [apply C, Hnin|apply HI, Hm]. }
+        specialize (IH (n :: c) st' Hc' HI' Hh).
+        destruct (run_ops ar fx t st' ops) as [st'' xs]. cbn [snd] in *.
+        constructor; [reflexivity|exact IH].
+  Qed.
+
+  (* from the empty state *)
+  Theorem cache_transparent_hist ops :
+    hist_ok [] ops ->
+    constructs_succeed ops (snd (run_ops ar fx t empty_styles ops)) ->
+    gets_agree ops (snd (run_ops ar fx t empty_styles ops)).
+  Proof.
+    intros Hh Hs. apply (transparent_hist ops [] empty_styles); try assumption.
+    - intros m [].
+    - intros m [].
+  Qed.
+
+  (* newStyleFor's order (every style constructed in index order) followed by any
+     sequence of Gets on nodes of the tree is a well-formed history *)
+  Definition get_ops (l : list (N * N)) : list op := map (fun np => OGet (fst np) (snd np)) l.
+
+  Lemma hist_ok_init_aux (gets : list (N * N)) :
+    Forall (fun np => (N.to_nat (fst np) < List.length t)%nat) gets ->
+    forall m k c, (k + m = List.length t)%nat -> (forall j, (j < k)%nat -> In (N.of_nat j) c) ->
+    hist_ok c (map (fun i => OConstruct (N.of_nat i)) (seq k m) ++ get_ops gets).
+  Proof.
+    intros Hg m. induction m as [|m IH]; intros k c Hk Hc; cbn [seq map app].
+    - clear Hg0 || idtac. induction gets as [|[n p] gets IHg]; cbn; [exact I|].
+      inversion Hg; subst. cbn in H1. split; [|apply IHg; assumption].
+      replace n with (N.of_nat (N.to_nat n)) by lia. apply Hc. lia.
+    - cbn [hist_ok]. split.
+      + assert (Hlt : (k < List.length t)%nat) by lia.
+        destruct (nth_error t k) as [nd|] eqn:En; [|apply nth_error_None in En; lia].
+        exists nd. unfold node_at. rewrite Nat2N.id. split; [exact En|].
+        intros j Hj. assert (En' : node_at t (N.of_nat k) = Some nd) by (unfold node_at; now rewrite Nat2N.id).
+        pose proof (parent_lt t WF _ nd j En' Hj). replace j with (N.of_nat (N.to_nat j)) by lia. apply Hc. lia.
+      + apply IH; [lia|]. intros j Hj. destruct (Nat.eq_dec j k) as [->|]; [left; reflexivity|right; apply Hc; lia].
+  Qed.
+
+  Lemma hist_ok_init gets :
+    Forall (fun np => (N.to_nat (fst np) < List.length t)%nat) gets ->
+    hist_ok [] (init_ops t ++ get_ops gets).
+  Proof.
+    intros Hg. unfold init_ops. apply hist_ok_init_aux; [exact Hg|lia|]. intros j Hj. lia.
+  Qed.
+End Transparency.
